@@ -317,3 +317,17 @@ HARNESSES = [
 ]
 OUTSIDE = ["a sink that itself mutates the objects it receives (CopyStreamResult hands the same argument objects to every target)",
            "trees with more nodes than the bound"]
+
+
+def e2_lemmas(tier):
+    """E2 (zproxy): the same real functions on proxies carrying SMT terms - unbounded tag sets / strings."""
+    from vf import e2
+    return e2.summarise(e2.c11_lemmas())
+
+
+def e2_replay(name, model):
+    from vf import e2
+    for l in e2.c11_lemmas():
+        if l["name"] == name:
+            return l["verdict"] != "REFUTED", l
+    return True, {"note": "lemma not found"}
